@@ -42,6 +42,11 @@ reaches the registry -/
 theorem refused_before_registry : update_encodes_before_registry = true ∧ register_encodes_before_registry = true := by
   simp [update_encodes_before_registry, register_encodes_before_registry]
 
+/-- leaving `async with AsyncZeroconf()` / `with Zeroconf()` goes through the public close calls (which say goodbye first), and
+`async_unregister_service` defaults a missing `server` before it reads `server_key` -/
+theorem context_exit_closes : aexit_calls_async_close = true ∧ exit_calls_close = true ∧ unregister_sets_server = true := by
+  simp [aexit_calls_async_close, exit_calls_close, unregister_sets_server]
+
 /-- `async_send` sends nothing once `done` -/
 theorem send_is_noop_eq (d : Bool) : send_is_noop d = d := by simp [send_is_noop]
 
